@@ -1,7 +1,7 @@
 """C20 — Overlapped lists: interleaving siblings does not change the result."""
 from engine import *
 from facts import strip_generics, callee_of
-import sym
+import sym, json
 import c07
 
 CONFIGS_QUICK = ["F_all", "F_nool"]  # every configuration whose cfg-gated code the property depends on
@@ -301,7 +301,42 @@ def r5_seq_table(ctx):
                    "an element is deserialized as an item exactly when the filter says it is suitable; otherwise it is skipped (overlapped lists) or ends the list: suitable -> %s, not suitable -> %s" % (sorted(suited.get(True, [])), sorted(suited.get(False, []))), config=cfg)
 
 
-RULES = [("R1", r1_limit), ("R2", r2_pairing), ("R3", r3_replay_order), ("R4", r4_skip_table), ("R5", r5_seq_table), ("R6", r6_read_to_end), ("R7", r7_limit_is_only_a_number)]
+FRONT_OPS = ("is_empty", "len", "front", "pop_front", "push_front")
+
+
+def r8_replay_queue_is_consumed_at_the_front(ctx):
+    """`read` holds the events to hand out next, oldest first: peek / next / last_peeked look at and take from the
+    FRONT, and a freshly read event enters an empty queue.  Any access to the other end (back, push_back, pop_back,
+    indexing) sees or moves a different event as soon as a replay has put more than one event there."""
+    for cfg, F in ctx.facts.items():
+        if "overlapped-lists" not in F.features:
+            ctx.ob("R8", "not-compiled", True, "the replay queue exists only with overlapped-lists", config=cfg)
+            continue
+        n = 0
+        for b in F.bodies:
+            bp = strip_generics(b.path)
+            if "quick_xml::de::" not in bp or is_derive(b) or "::tests" in bp:
+                continue
+            if not any('"n": "read", "of": "quick_xml::de::Deserializer"' in json.dumps(st) for _, st in b.stmts()):
+                continue
+            seen = set()
+            for p in ctx.paths(b):
+                for c in calls(p):
+                    if isinstance(c[1], tuple) or not isinstance(c[2], str) or "VecDeque" not in c[2] or not c[3]:
+                        continue
+                    recv = strip_wrappers(c[3][0])
+                    if not (recv[0] == "pl" and ends_with_fields(recv, "read")):
+                        continue
+                    op = c[2].rsplit("::", 1)[-1]
+                    if (c[1], op) in seen:
+                        continue
+                    seen.add((c[1], op))
+                    n += 1
+                    ctx.ob("R8", "%s:read.%s" % (sym.short(bp), op), op in FRONT_OPS, "the replay queue is inspected and consumed at its front only (allowed: %s)" % ", ".join(FRONT_OPS), loc=b.loc(c[4]), config=cfg)
+        ctx.floor("R8", "operations on the replay queue", n, 5, config=cfg)
+
+
+RULES = [("R1", r1_limit), ("R2", r2_pairing), ("R3", r3_replay_order), ("R4", r4_skip_table), ("R5", r5_seq_table), ("R6", r6_read_to_end), ("R7", r7_limit_is_only_a_number), ("R8", r8_replay_queue_is_consumed_at_the_front)]
 
 
 def THOROUGH_EXTRA(ctx):
